@@ -70,6 +70,11 @@ OnInputOK(P, cfg) ==
         i # j => ~(P[s][i].g = P[s][j].g /\ Round(P[s][i].t, cfg.tol) = Round(P[s][j].t, cfg.tol))
 
 (* ---------------- batch join: the same pairing, twice --------------------- *)
+(* A batch WITHOUT points is still a message: it takes its parent's k-th slot   *)
+(* at its tmax (so it pairs with the other parents' k-th batches), but it has   *)
+(* no point to contribute - every joined point of that set lacks that parent,   *)
+(* which an outer join fills (null / the number, one field per field name of    *)
+(* the points that ARE there) and an inner join answers by emitting no point.   *)
 (* Batches are paired like points (time = tmax); inside a joined batch the   *)
 (* points of the member batches are paired by k-th occurrence per rounded    *)
 (* point time.  Point ids are v*10+i.                                         *)
